@@ -1,0 +1,28 @@
+// Copyright 2020-2025 Buf Technologies, Inc.
+//
+// Licensed under the Apache License, Version 2.0 (the "License");
+// you may not use this file except in compliance with the License.
+// You may obtain a copy of the License at
+//
+//      http://www.apache.org/licenses/LICENSE-2.0
+//
+// Unless required by applicable law or agreed to in writing, software
+// distributed under the License is distributed on an "AS IS" BASIS,
+// WITHOUT WARRANTIES OR CONDITIONS OF ANY KIND, either express or implied.
+// See the License for the specific language governing permissions and
+// limitations under the License.
+
+//go:build verif
+
+package filelock
+
+// VerifNewLocker, when set, supplies the Locker for a lock directory.
+var VerifNewLocker func(rootDirPath string) Locker
+
+// verifLocker returns the simulated locker for the directory, if any.
+func verifLocker(rootDirPath string) Locker {
+	if VerifNewLocker != nil {
+		return VerifNewLocker(rootDirPath)
+	}
+	return nil
+}
